@@ -30,6 +30,10 @@ PARTIAL = {
     "C08": "proved for all inputs: CJJ14.PiBas _parse_config exact refusal conditions; bounded stand-in only: the configuration grid of the property over all nine schemes",
 }
 
+PARTIAL["C04"] = "proved: AESxCBC.Encrypt's output is iv || CBC(pkcs7(m)) with a 16-byte IV (C14) and CJJ14.PiBas stores only PRF outputs as labels and Encrypt outputs as values (Repr); bounded stand-in only: substring absence and ciphertext-block freshness over all nine schemes"
+PARTIAL["C19"] = "bounded stand-in only so far (seeded operation histories against a list model); contracts for the index -> (file, offset) arithmetic are not yet in place"
+PARTIAL["C20"] = "bounded stand-in only so far (seeded operation histories against a dict model)"
+
 PROPS = {
     "C17": dict(modules=["toolkit_bytes"], assumptions=A_ENGINE + [
         "B1: int.to_bytes / int.from_bytes (big endian) are the functions i2b / b2i; OverflowError iff x<0 or x>=256**w",
@@ -39,10 +43,16 @@ PROPS = {
     "C01": dict(modules=["pibas", "sse_bounded"], assumptions=A_SSE, bounded=[], partial=PARTIAL["C01"], runtime_checks=[["sse_bounded", "rt_c01_c02"]]),
     "C02": dict(modules=["pibas", "sse_bounded"], assumptions=A_SSE, bounded=[], partial=PARTIAL["C02"], runtime_checks=[["sse_bounded", "rt_c01_c02"]]),
     "C03": dict(modules=["pibas", "sse_bounded"], assumptions=A_SSE, bounded=[], partial=PARTIAL["C03"], runtime_checks=[["sse_bounded", "rt_c03"]]),
+    "C04": dict(modules=["pibas", "sse_bounded"], assumptions=A_SSE + ["A4/A2 (NOT decided): absence of chance substrings / collisions is probabilistic"], bounded=[],
+                partial=PARTIAL["C04"], runtime_checks=[["sse_bounded", "rt_c04"]]),
     "C05": dict(modules=["pibas", "sse_bounded"], assumptions=A_SSE, bounded=[], partial=PARTIAL["C05"], runtime_checks=[["sse_bounded", "rt_c05"]]),
     "C06": dict(modules=["pibas", "sse_bounded"], assumptions=A_SSE, bounded=[], partial=PARTIAL["C06"], runtime_checks=[["sse_bounded", "rt_c06"]]),
     "C07": dict(modules=["pibas", "sse_bounded"], assumptions=A_SSE, bounded=[], partial=PARTIAL["C07"], runtime_checks=[["sse_bounded", "rt_c07"]]),
     "C08": dict(modules=["pibas", "sse_bounded"], assumptions=A_SSE, bounded=[], partial=PARTIAL["C08"], runtime_checks=[["sse_bounded", "rt_c08"]]),
+    "C19": dict(modules=["persist_bounded"], assumptions=A_ENGINE + ["D2: file objects: seek/read/write/close as documented"], bounded=[],
+                partial=PARTIAL["C19"], runtime_checks=[["persist_bounded", "rt_c19"]]),
+    "C20": dict(modules=["persist_bounded"], assumptions=A_ENGINE + ["P1: pickle round trip", "D3: a dbm handle behaves like dict[bytes, bytes] within one session"], bounded=[],
+                partial=PARTIAL["C20"], runtime_checks=[["persist_bounded", "rt_c20"]]),
     "C14": dict(modules=["crypto"], assumptions=A_ENGINE + [
         "X1: cryptography's PKCS7 padder/unpadder: update()+finalize() == pkcs7(m) / unpad7(d), invalid padding raises ValueError",
         "X2: cryptography's AES-CBC: encryptor/decryptor are mutually inverse, length preserving on whole blocks; AES(key) accepts 16/24/32-byte keys; CBC IV has 16 bytes",
